@@ -6,3 +6,5 @@ import AM.Props.C09
 import AM.Props.C12
 import AM.Lemmas.SilencerInv
 import AM.Props.C02
+import AM.Props.C02I
+import AM.Props.C02M
